@@ -1,5 +1,7 @@
+From OV Require Emu.MetaDefs.
 From OV Require Import Base.CInt Emu.LoaderMetaDefs Emu.VersionDefs Emu.MarkDefs Rt.RtMetaDefs Rt.MarkJsonDefs.
 From Coq Require Import ExtrOcamlBasic.
-Extraction "rtmeta_x.ml" run meta_conformant to_loader_meta meta_check to_thread_req to_stream_meta
+Extraction "rtmeta_x.ml" rtm_run meta_conformant to_loader_meta meta_check to_thread_req to_stream_meta
   tagged writes disk user_key dotget dotset
+  final_metas expected_metas rtm_build rtm_thread_rows rtm_cpu_rows
   mrun parse_mark_json emu_types_of_trees emu_pcf_of_trees.
